@@ -281,4 +281,100 @@ theorem stage1_sim {n : Node} {a : Addr} {sd : Side} (inv : NInv n a) (sr : SR n
       rw [hrecv]; right; left
       exact ⟨_, _, _, _, _, _, rfl, rfl, rfl⟩
 
+/-- delivery of a reply: `res` is what the Machine returned — `.completed c` only if the pending handshake registered
+under `idx` is the one the reply answers (`hmatch`), `.err false` otherwise (Model/HsNet.lean `deliverTo`) -/
+theorem stage2_sim {n : Node} {a : Addr} {sd : Side} (inv : NInv n a) (sr : SR n a sd)
+    (via : UNode) (idx : Nat) (c : Completed) (replyTo : Handle) (hc : c.certAddrs = [a])
+    (hself : n.cfg.myAddrs.contains a = false)
+    (hmatch : ∀ hh, (alookup idx n.p.pindexes).bind n.p.pendingById = some hh → hh.pkt0 = some replyTo) :
+    NInv (n.continueHandshake via idx (.completed c)).1 a ∧
+    (SR (n.continueHandshake via idx (.completed c)).1 a sd ∨
+     SR (n.continueHandshake via idx (.completed c)).1 a (sd.receive 0 (.m2 (replyTo + 1) c.remoteIndex idx)).1) ∧
+    (n.continueHandshake via idx (.completed c)).2.made = [] ∧
+    ∀ t, t ∈ (n.continueHandshake via idx (.completed c)).2.tx → ∀ h d, t ≠ .hs h d := by
+  unfold Node.continueHandshake
+  cases hlk : (alookup idx n.p.pindexes).bind n.p.pendingById with
+  | none => exact ⟨inv, Or.inl sr, rfl, by simp⟩
+  | some hh =>
+    have hpk := hmatch hh hlk
+    -- the pending handshake found through the index is THE pending handshake towards `a`
+    obtain ⟨id, hid, hby⟩ : ∃ id, alookup idx n.p.pindexes = some id ∧ n.p.pendingById id = some hh := by
+      cases h1 : alookup idx n.p.pindexes with
+      | none => rw [h1] at hlk; simp at hlk
+      | some id => rw [h1] at hlk; exact ⟨id, rfl, by simpa using hlk⟩
+    obtain ⟨hh0, hl0, hid0, hli0, hr0⟩ := inv.pidx idx id hid
+    have hv : n.p.vpnIps = [(a, hh0)] := by
+      rcases vpnIps_shape inv with hv | ⟨x, hv⟩
+      · rw [hv] at hl0; simp [alookup] at hl0
+      · rw [hv, alookup_single] at hl0; simp at hl0; rw [hl0] at hv; exact hv
+    have hheq : hh = hh0 := by
+      unfold PSide.pendingById at hby
+      rw [hv] at hby
+      simp only [List.find?_cons, List.find?_nil] at hby
+      split at hby <;> simp at hby
+      exact hby.symm
+    subst hheq
+    have hmem : (a, hh) ∈ n.p.vpnIps := by rw [hv]; simp
+    have hk := inv.pkeys _ hmem
+    simp only [hr0, Bool.not_true, Bool.false_eq_true, if_false]
+    generalize remoteListOf n.p.lh hh hh.vpnAddr = rl
+    obtain ⟨lh, rid⟩ := rl
+    simp only
+    have hany : c.certAddrs.any (fun x => n.cfg.myAddrs.contains x) = false := by
+      rw [hc]; simp only [List.any_cons, List.any_nil, Bool.or_false]; exact hself
+    have hcont : c.certAddrs.contains hh.vpnAddr = true := by
+      rw [hc, hk.2.1]; simp
+    simp only [hany, hcont, Bool.not_true, Bool.false_eq_true, if_false]
+    -- the pending side after DeleteHostInfo of the pending entry
+    have hdel : ∀ (p0 : PSide), p0.vpnIps = n.p.vpnIps → p0.pindexes = n.p.pindexes →
+        (p0.deletePending hh).vpnIps = [] ∧ (p0.deletePending hh).pindexes = aerase idx n.p.pindexes ∧
+        (p0.deletePending hh).nextObj = p0.nextObj := by
+      intro p0 h1 h2
+      have hva' : hh.vpnAddr = a := hk.2.1
+      unfold PSide.deletePending
+      simp only [h1, h2, hva', hl0, hli0, hid, hid0]
+      simp [aerase, hv]
+    have hd := hdel { n.p with lh := lh.learn rid hh.vpnAddr via } rfl rfl
+    generalize PSide.deletePending { n.p with lh := lh.learn rid hh.vpnAddr via } hh = pd at hd ⊢
+    obtain ⟨d1, d2, d3⟩ := hd
+    have hnone : ∀ i id', alookup i pd.pindexes = some id' → False := by
+      intro i id' h
+      rw [d2, alookup_aerase] at h
+      split at h
+      · simp at h
+      · rename_i hne
+        obtain ⟨hh1, h1, _, h3, _⟩ := inv.pidx i id' h
+        rw [hl0] at h1; simp at h1; subst h1
+        exact hne (h3.symm.trans hli0)
+    have hfree : alookup (initiatorHostInfo hh via c).localIndex n.main.indexes = none := by
+      show alookup hh.localIndex n.main.indexes = none
+      rw [hli0]; exact inv.disj idx (by rw [hid]; rfl)
+    have hnp : n.pdl.contains (initiatorHostInfo hh via c).id = false := by
+      show n.pdl.contains hh.id = false
+      cases hc' : n.pdl.contains hh.id with
+      | false => rfl
+      | true => exact absurd rfl ((inv.pdlok hh.id (by simpa using hc')).2 _ hmem)
+    have hpend : sd.pending = some (encH hh.pkt0, hh.localIndex) := by
+      rw [sr.pend]; simp [absPending, hl0, hr0]
+    have hrecv : (sd.receive 0 (.m2 (replyTo + 1) c.remoteIndex idx)).1 =
+        { (sd.install (absTun (initiatorHostInfo hh via c))) with pending := none } := by
+      simp only [Side.receive, hpend, hpk, encH, hli0, beq_self_eq_true, Bool.and_self, if_true]
+      simp [absTun, initiatorHostInfo, hpk, encH, hli0]
+    have hres := install_sim inv sr (initiatorHostInfo hh via c) { pd with lh := pd.lh.refresh rid }
+      (by show c.certAddrs = [a]; exact hc) (fun x hx => hk.2.2.2 x hx) hfree rfl
+      (by show hh.id < pd.nextObj; rw [d3]; exact hk.2.2.1) hnp
+      (by show n.p.nextObj ≤ pd.nextObj; rw [d3]; exact Nat.le_refl _)
+      (fun e he => by
+        have : e ∈ pd.vpnIps := he
+        rw [d1] at this; simp at this)
+      (by show pd.vpnIps.length ≤ 1; rw [d1]; simp)
+      (fun i id' h => (hnone i id' h).elim)
+      { (sd.install (absTun (initiatorHostInfo hh via c))) with pending := none } rfl
+      (by show none = absPending pd a; simp [absPending, d1, alookup]) rfl (by simp)
+    refine ⟨hres.1, Or.inr (by rw [hrecv]; exact hres.2), by first | rfl | trivial, ?_⟩
+    intro t ht h d e
+    simp only [List.mem_map] at ht
+    obtain ⟨q, _, hq⟩ := ht
+    rw [e] at hq; simp at hq
+
 end Nebula.Lemmas.HsSim
